@@ -23,6 +23,7 @@ def run(res, tier, replay=None):
     prims = c01.primitives(prog)
     c01i.run(prog, res, floor=18, prims=prims, advisory_filter=c01.scope_filter())
     c01i.run_views(prog, res, floor=5, prims=prims, advisory_filter=c01.scope_filter())
+    c01i.run_extents(prog, res, floor=3, prims=prims, advisory_filter=c01.scope_filter())
     c01i.witnesses(prog, res)
     if tier == "thorough":
         common.config_matrix(res, lambda p, r: (c01.run_b(p, r, floor=0), c01.run_a(p, r), c01.run_d(p, r)), violation=False)
@@ -37,6 +38,7 @@ def run(res, tier, replay=None):
             "C01.h": lambda p, r: bufbudget.run(p, r, "C01", "C01.h", {"sexp.c"}, floor=0),
             "C01.i": lambda p, r: c01i.run(p, r, floor=0, prims=c01.primitives(p), advisory_filter=flt),
             "C01.j": lambda p, r: c01i.run_views(p, r, floor=0, prims=c01.primitives(p), advisory_filter=flt),
+            "C01.k": lambda p, r: c01i.run_extents(p, r, floor=0, prims=c01.primitives(p), advisory_filter=flt),
         })
     res.assumptions = common.ASSUMPTIONS
     res.explanation = (
@@ -55,5 +57,7 @@ def run(res, tier, replay=None):
         "stores through the compared lvalues, linear normal forms, pairwise transitivity, unsigned-compare reasoning, "
         "non-negativity summaries of cursor-producing callees; unguarded helper accesses become obligations of their call "
         "sites. (j) string views: writers of (bytes, offset, length) keep offset + length inside the bytes object. "
+        "(k) extents: a (pointer into an operand's data, count) pair given to memcpy/memset/fwrite/strncmp in a primitive or VM "
+        "arm stays inside the object when offset or count is program-supplied (lengths of fresh objects taken from their allocation). "
         "Not decided: pointer-walking loops, memcpy lengths, tables hung off the context (type table, signal handlers), "
         "the reader's label table (value invariant), reader token buffers beyond C01.h, stack growth sufficiency, OOM paths.")
